@@ -169,6 +169,10 @@ Definition p_literal_header : P N :=
   else if literal_cap <=? n then fail_kind (guard_kind literal_cap_guard_is_parser_error)
   else p_consume (tok_is TT_RCurly) ;;; p_consume (tok_is TT_CR) ;;; p_consume (tok_is TT_LF) ;;; ret n.
 Definition p_literal : P bytes := n <- p_literal_header ;; p_take n.
+(* ParseLiteral invokes literalContinuationCb (the session answers "+ Ready") between the CR and the LF of the header,
+   whenever the LF is there; `literal_continuation_unconditional` (read from the source) says that this does not depend on
+   the announced size.  A client using a synchronising literal waits for that line before it sends the n bytes. *)
+Definition lit_continuation_sent (n : N) : bool := literal_continuation_unconditional || (0 <? n).
 
 (* ParseString / TryParseString / ParseAString *)
 Definition starts_string (bs : bytes) : bool := (cur_tok bs =? TT_DQuote) || (cur_tok bs =? TT_LCurly).
